@@ -141,6 +141,9 @@ def gen_cases(tier, seed):
 
 
 SHAPES = [
+    # characters that str.splitlines() treats as line ends but the language does not (lines are separated by \\n only)
+    "zs$ = \"a\x0cb\x0bc\"\nPRINT 41001&\n' c\x1c\x1d \x85 \u2028\nPRINT 41002&\nDATA a\x1eb\nPRINT 41003&: REM \x0c\nPRINT 41004&\nzq% = 41005& \\ ztz%\n",
+    "PRINT \"\x0c\"; 41001&\nIF ztz% = 0 THEN PRINT 41002&: zs$ = \"\x1c\r\": PRINT 41003&\nPRINT 41004&\n",
     "IF ztz% THEN\nELSE\nEND IF\nPRINT 41001&\n",
     "PRINT 41001&: PRINT 41002&: zq% = ztz% * 41003&\nPRINT 41004&\n",
     "IF ztz% = 0 THEN PRINT 41001& ELSE PRINT 41002&\nPRINT 41003&\n",
